@@ -74,7 +74,64 @@ def ser_flat(root, ast):
     return out
 
 
+_seen_ids = {}
+
+
+def session(case):
+    """Several exports in ONE process: trees parsed / cloned / edited in place through the ast API / dropped, each
+    export recorded with the flat model of the tree passed in at that step (flatten of a fresh deep copy)."""
+    import gc
+    import pymoca.parser
+    from pymoca import ast
+    from pymoca.backends.xml import generator
+    from pymoca.tree import flatten
+    cls = case["cls"]
+    slots = {}
+    exports = []
+    for st in case["steps"]:
+        do = st["do"]
+        if do == "parse":
+            slots[st["slot"]] = pymoca.parser.parse(st["text"])
+        elif do == "clone":
+            slots[st["slot"]] = copy.deepcopy(slots[st["from"]])
+        elif do == "drop":
+            del slots[st["slot"]]
+            gc.collect()
+        elif do == "export":
+            tree = slots[st["slot"]]
+            rec = {"tid_seen_before": id(tree) in _seen_ids and _seen_ids[id(tree)] != st.get("content")}
+            _seen_ids[id(tree)] = st.get("content")
+            try:
+                rec["xml"] = generator.generate(tree, cls)
+            except Exception as e:  # noqa
+                rec["gen_exc"] = type(e).__name__
+                rec["gen_msg"] = str(e)[:200]
+            try:
+                rec["flat"] = ser_flat(flatten(copy.deepcopy(tree), ast.ComponentRef.from_string(cls)), ast)
+            except Exception as e:  # noqa
+                rec["flat_exc"] = type(e).__name__
+                rec["flat_msg"] = str(e)[:200]
+            exports.append(rec)
+        else:
+            c = slots[st["slot"]].classes[cls]
+            if do == "add_symbol":
+                c.add_symbol(slots[st["donor"]].classes[cls].symbols[st["name"]])
+            elif do == "add_equation":
+                c.add_equation(slots[st["donor"]].classes[cls].equations[st["index"]])
+            elif do == "remove_equation":
+                c.remove_equation(c.equations[st["index"]])
+            elif do == "set_attr":
+                setattr(c.symbols[st["name"]], st["attr"], ast.Primary(value=st["v"]))
+            elif do == "set_prefixes":
+                c.symbols[st["name"]].prefixes = list(st["prefixes"])
+            else:
+                raise ValueError("unknown step %r" % do)
+    return {"exports": exports}
+
+
 def handler(case):
+    if case.get("kind") == "session":
+        return session(case)
     import pymoca.parser
     from pymoca import ast
     from pymoca.backends.xml import generator
